@@ -66,3 +66,96 @@ GROUPS = [
     dict(name="C06/truthiness-contexts", clause="!v, if, while, &&, ||, match-embedded if and filter patterns treat v as falsey exactly when it is false, 0, 0.0, null, '\\0', b'\\0', an empty string, array or map; a && b / a || b yield an operand and evaluate b only when needed",
          bound="13 falsey and 24 truthy values (incl. 1e-20, 0.1*0.1-0.01, '0', [[]], functions) x 9 program contexts + 2 filter forms; 13 short-circuit chains", gen=gen),
 ]
+
+
+# ---- nested logical expressions in value and condition positions --------------------------------------------------------
+VALS_F = [("0", "0"), ('""', ""), ("null", "null"), ("false", "false"), ("[]", "[]"), ("0.0", "0")]
+VALS_T = [("1", "1"), ('"a"', "a"), ("[0]", "[0]"), ("true", "true"), ("2.5", "2.5"), ("-1", "-1")]
+
+
+class Atom:
+    def __init__(self, k, src, shown, truthy):
+        self.k, self.src, self.shown, self.truthy = k, src, shown, truthy
+
+
+def ev(t, trace):
+    """reference evaluation: (shown text, truthy)"""
+    if isinstance(t, Atom):
+        trace.append(t.k)
+        return t.shown, t.truthy
+    if t[0] == "!":
+        s, tr = ev(t[1], trace)
+        return ("false" if tr else "true"), (not tr)
+    a = ev(t[1], trace)
+    if t[0] == "&&":
+        return ev(t[2], trace) if a[1] else a
+    return a if a[1] else ev(t[2], trace)
+
+
+def render(t, minimal):
+    if isinstance(t, Atom):
+        return "p(%d, %s)" % (t.k, t.src)
+    if t[0] == "!":
+        return "!" + (render(t[1], minimal) if isinstance(t[1], Atom) else "(" + render(t[1], minimal) + ")")
+    def side(x, right):
+        r = render(x, minimal)
+        if isinstance(x, Atom) or x[0] == "!":
+            return r
+        if minimal and (x[0] == t[0] and not right or (t[0] == "||" and x[0] == "&&")):
+            return r            # left-associative chains of one operator; && binds tighter than ||
+        return "(" + r + ")"
+    return "%s %s %s" % (side(t[1], False), t[0], side(t[2], True))
+
+
+def trees(rng, depth, counter):
+    if depth == 0 or rng.random() < 0.25:
+        f = rng.random() < 0.5
+        src, shown = rng.choice(VALS_F if f else VALS_T)
+        counter[0] += 1
+        return Atom(counter[0], src, shown, not f)
+    if rng.random() < 0.2:
+        return ("!", trees(rng, depth - 1, counter))
+    return (rng.choice(["&&", "||"]), trees(rng, depth - 1, counter), trees(rng, depth - 1, counter))
+
+
+def gen_nested(tier, rng):
+    cases = []
+    # every shape of three operands, every operator pair, falsey/truthy in every slot
+    for shape in ("L", "R"):
+        for o1 in ("&&", "||"):
+            for o2 in ("&&", "||"):
+                for bits in range(8):
+                    for neg in (None, 0, 1):
+                        atoms = []
+                        for k in range(3):
+                            f = not (bits >> k) & 1
+                            src, shown = rng.choice(VALS_F if f else VALS_T)
+                            atoms.append(Atom(k + 1, src, shown, not f))
+                        inner = (o1, atoms[0], atoms[1]) if shape == "L" else (o2, atoms[1], atoms[2])
+                        if neg == 0:
+                            inner = ("!", inner)
+                        t = (o2, inner, atoms[2]) if shape == "L" else (o1, atoms[0], inner)
+                        if neg == 1:
+                            t = ("!", t)
+                        cases.append(t)
+    n = 150 if tier == "quick" else 4000
+    for _ in range(n):
+        cases.append(trees(rng, rng.choice([2, 3, 3, 4]), [0]))
+    for c, t in enumerate(cases):
+        trace = []
+        shown, truthy = ev(t, trace)
+        tr = "".join("E%d\n" % k for k in trace)
+        for minimal in (True, False):
+            e = render(t, minimal)
+            prog = ('fn p(k, v) { puts("E", k); return v; }\nlet r = %s; puts("V=", r);\nif %s { puts("T"); } else { puts("F"); }\n'
+                    'let n = 0; while %s { n = n + 1; if n == 1 { break; } } puts("W", n);\nif false { puts("X"); } else if %s { puts("T"); } else { puts("F"); }\n'
+                    'fn g() { if %s { return "T"; } return "F"; } puts(g());\n') % (e, e, e, e, e)
+            tf = "T" if truthy else "F"
+            want = tr + "V=" + shown + "\n" + tr + tf + "\n" + tr + "W" + ("1" if truthy else "0") + "\n" + tr + tf + "\n" + tr + tf + "\n"
+            yield dict(id="nested/%d/%s" % (c, "min" if minimal else "full"), prog=prog, batch=True,
+                       check=(lambda r, want=want, e=e: no_panic(r) or (None if r.text == want and "rror" not in r.etext else
+                              "`%s` (as a value, if / while / else-if condition, and inside a function): expected %r, got %r %r" % (e, want, r.text[:300], r.etext[:160]))))
+
+
+GROUPS.append(dict(name="C06/nested-logic", clause="nested && / || / ! expressions yield the operand the rules name and evaluate exactly the operands the rules allow, in source order - as a value and as an if / while / else-if condition",
+                   bound="all 3-operand shapes x operator pairs x falsey/truthy slots x optional negation (288) + 150/4000 seeded random trees of depth 2-4 over 12 values; minimal and full parentheses; 5 positions each", gen=gen_nested))
